@@ -440,7 +440,7 @@ static void signature(decoder_t *d, char *out, size_t n)
 }
 
 /* ---------- scenarios ---------- */
-static short pcm[5][70000]; static float fpcm[70000]; static size_t npcm[5];
+static short pcm[6][70000]; static float fpcm[70000]; static size_t npcm[6];
 static void load_raw(int slot, const char *name)
 {
     char path[600]; FILE *f;
@@ -544,6 +544,14 @@ int main(int argc, char **argv)
     decode(d, 0, ONE_CALL); check_all(d, 1); signature(d, ref, sizeof ref);
     printf("SAMPLE %s: %.300s\n", scen, ref);
     if (!strstr(ref, "go forward ten meters")) { printf("FAIL reference decode does not recognise the recording: %.200s\n", ref); return 1; }
+    /* an utterance of exactly the same length but other content right after: nothing cached for the previous utterance
+     * (alignment, lattice, JSON) may be served again */
+    scen = "en-us goforward.raw rotated by 0.4 s (same length, other boundaries), JSGF grammar, one call";
+    npcm[5] = npcm[0];
+    memcpy(pcm[5], pcm[0] + 6400, (npcm[0] - 6400) * sizeof(short));
+    memcpy(pcm[5] + (npcm[0] - 6400), pcm[0], 6400 * sizeof(short));
+    decode(d, 5, ONE_CALL); check_all(d, 0);
+    decode(d, 0, ONE_CALL); check_all(d, 1);
     scen = "en-us goforward.raw, JSGF grammar, 2048-sample blocks with partial results";
     decode(d, 0, BLOCKS); check_all(d, 1);
     scen = "en-us goforward.raw, JSGF grammar, float32";
